@@ -15,85 +15,88 @@ Definition b2n (b : bool) : N := if b then 1 else 0.
 Section Make.
 Variable K : zkeys.
 
-(* the switch of makemove: board, hash, halfmove clock, ep after the case body *)
-Definition make_switch (b : board) (h half : N) (us : side) (m : move) : board * N * N * N :=
+(* makemove, field by field.  The C++ switch updates colours_/pieces_, hash_, halfmove_clock_ and ep_ inside
+   each case; the model gives the final value of each field as its own function of the same inputs. *)
+
+(* colours_[] / pieces_[] after the switch; rk / rq = castle_rooks_from_[us*2] / [us*2+1] *)
+Definition make_board (b : board) (us : side) (m : move) (rk rq : N) : board :=
   let them := opp_side us in
   let from := m_from m in let to := m_to m in
   let piece := m_piece m in let captured := m_cap m in let promo := m_promo m in
   let ft := N.lxor (bit from) (bit to) in
-  let pk := piece_key K in
+  let castle (kto rfrom rto : N) : board :=
+    let x := N.lxor (bit from) (bit kto) in
+    let b := xor_pcs (xor_colour b us x) piece x in
+    let b := xor_pcs (xor_colour b us (bit rfrom)) Rook (bit rfrom) in
+    xor_pcs (xor_colour b us (bit rto)) Rook (bit rto) in
   match m_type m with
-  | Normal =>
-    let b := xor_pcs (xor_colour b us ft) piece ft in
-    let h := N.lxor (N.lxor h (pk piece us from)) (pk piece us to) in
-    (b, h, (if piece_eqb piece Pawn then 0 else half), OffSq)
+  | Normal | Double => xor_pcs (xor_colour b us ft) piece ft
   | Capture =>
     let b := xor_pcs (xor_colour b us ft) piece ft in
-    let h := N.lxor (N.lxor h (pk piece us from)) (pk piece us to) in
-    let h := N.lxor h (pk captured them to) in
-    let b := xor_colour (xor_pcs b captured (bit to)) them (bit to) in
-    (b, h, 0, OffSq)
-  | Double =>
-    let b := xor_pcs (xor_colour b us ft) piece ft in
-    let h := N.lxor (N.lxor h (pk piece us from)) (pk piece us to) in
-    let e := match us with White => sq_south to | Black => sq_north to end in
-    (b, N.lxor h (ep_key K e), 0, e)
+    xor_colour (xor_pcs b captured (bit to)) them (bit to)
   | Enpassant =>
     let b := xor_pcs (xor_colour b us ft) piece ft in
-    let h := N.lxor (N.lxor h (pk piece us from)) (pk piece us to) in
     match us with
-    | White =>
-      let b := xor_colour (xor_pcs b Pawn (bit (sq_south to))) Black (bit (sq_south to)) in
-      (b, N.lxor h (pk Pawn them (sq_south to)), 0, OffSq)
-    | Black =>
-      let b := xor_colour (xor_pcs b Pawn (bit (sq_north to))) White (bit (sq_north to)) in
-      (b, N.lxor h (pk Pawn them (sq_north to)), 0, OffSq)
+    | White => xor_colour (xor_pcs b Pawn (bit (sq_south to))) Black (bit (sq_south to))
+    | Black => xor_colour (xor_pcs b Pawn (bit (sq_north to))) White (bit (sq_north to))
     end
-  | Ksc => (b, h, half, OffSq)   (* handled in makemove: needs castle_rooks_from_ *)
-  | Qsc => (b, h, half, OffSq)
+  | Ksc => castle (castle_king_to (side_to_N us * 2)) rk (ksc_rook_to us)
+  | Qsc => castle (castle_king_to (side_to_N us * 2 + 1)) rq (qsc_rook_to us)
   | Promo =>
     let b := xor_pcs (xor_colour b us ft) Pawn (bit from) in
-    let h := N.lxor (N.lxor h (pk piece us from)) (pk piece us to) in
-    let h := N.lxor (N.lxor h (pk Pawn us to)) (pk promo us to) in
-    (xor_pcs b promo (bit to), h, 0, OffSq)
+    xor_pcs b promo (bit to)
   | PromoCapture =>
     let b := xor_pcs (xor_colour b us ft) Pawn (bit from) in
-    let h := N.lxor (N.lxor h (pk piece us from)) (pk piece us to) in
-    let h := N.lxor (N.lxor (N.lxor h (pk captured them to)) (pk Pawn us to)) (pk promo us to) in
     let b := xor_pcs b promo (bit to) in
-    let b := xor_colour (xor_pcs b captured (bit to)) them (bit to) in
-    (b, h, 0, OffSq)
+    xor_colour (xor_pcs b captured (bit to)) them (bit to)
   end.
 
-Definition make_castle (b : board) (h : N) (us : side) (m : move) (kto rfrom rto : N) : board * N :=
-  let piece := m_piece m in let from := m_from m in
-  let x := N.lxor (bit from) (bit kto) in
-  let b := xor_pcs (xor_colour b us x) piece x in
+(* hash_ after the switch (h already carries the turn key and the old ep key) *)
+Definition make_hash (h : N) (us : side) (m : move) (rk rq : N) : N :=
+  let them := opp_side us in
+  let from := m_from m in let to := m_to m in
+  let piece := m_piece m in let captured := m_cap m in let promo := m_promo m in
   let pk := piece_key K in
-  let h := N.lxor (N.lxor (N.lxor (N.lxor h (pk piece us from)) (pk piece us kto)) (pk Rook us rfrom)) (pk Rook us rto) in
-  let b := xor_pcs (xor_colour b us (bit rfrom)) Rook (bit rfrom) in
-  let b := xor_pcs (xor_colour b us (bit rto)) Rook (bit rto) in
-  (b, h).
+  let moved := N.lxor (N.lxor h (pk piece us from)) (pk piece us to) in
+  match m_type m with
+  | Normal => moved
+  | Capture => N.lxor moved (pk captured them to)
+  | Double => N.lxor moved (ep_key K (match us with White => sq_south to | Black => sq_north to end))
+  | Enpassant =>
+    match us with
+    | White => N.lxor moved (pk Pawn them (sq_south to))
+    | Black => N.lxor moved (pk Pawn them (sq_north to))
+    end
+  | Ksc =>
+    N.lxor (N.lxor (N.lxor (N.lxor h (pk piece us from)) (pk piece us (castle_king_to (side_to_N us * 2)))) (pk Rook us rk)) (pk Rook us (ksc_rook_to us))
+  | Qsc =>
+    N.lxor (N.lxor (N.lxor (N.lxor h (pk piece us from)) (pk piece us (castle_king_to (side_to_N us * 2 + 1)))) (pk Rook us rq)) (pk Rook us (qsc_rook_to us))
+  | Promo => N.lxor (N.lxor moved (pk Pawn us to)) (pk promo us to)
+  | PromoCapture => N.lxor (N.lxor (N.lxor moved (pk captured them to)) (pk Pawn us to)) (pk promo us to)
+  end.
+
+(* halfmove_clock_ after the switch (it was incremented before) *)
+Definition make_half (half : N) (m : move) : N :=
+  match m_type m with
+  | Normal => if piece_eqb (m_piece m) Pawn then 0 else half
+  | Ksc | Qsc => half
+  | _ => 0
+  end.
+Definition make_ep (us : side) (m : move) : N :=
+  match m_type m with
+  | Double => match us with White => sq_south (m_to m) | Black => sq_north (m_to m) end
+  | _ => OffSq
+  end.
 
 Definition makemove (p : position) (m : move) : position :=
   let us := turn p in
   let from := m_from m in let to := m_to m in let piece := m_piece m in
+  let rk := rook_from_get p (side_to_N us * 2) in
+  let rq := rook_from_get p (side_to_N us * 2 + 1) in
   let full := fullmove p + b2n (side_eqb us Black) in
   let h := N.lxor (hash p) (turn_key K) in
   let h := if negb (ep p =? OffSq) then N.lxor h (ep_key K (ep p)) else h in
-  let half := halfmove p + 1 in
-  let '(b, h, half, e) :=
-    match m_type m with
-    | Ksc =>
-      let '(b, h) := make_castle (brd p) h us m (castle_king_to (side_to_N us * 2))
-                                 (rook_from_get p (side_to_N us * 2)) (ksc_rook_to us) in
-      (b, h, half, OffSq)
-    | Qsc =>
-      let '(b, h) := make_castle (brd p) h us m (castle_king_to (side_to_N us * 2 + 1))
-                                 (rook_from_get p (side_to_N us * 2 + 1)) (qsc_rook_to us) in
-      (b, h, half, OffSq)
-    | _ => make_switch (brd p) h half us m
-    end in
+  let h := make_hash h us m rk rq in
   let rec := mkH (hash p) m (ep p) (halfmove p) (c0 p) (c1 p) (c2 p) (c3 p) in
   let kw := piece_eqb piece King && side_eqb us White in
   let kb := piece_eqb piece King && side_eqb us Black in
@@ -105,7 +108,42 @@ Definition makemove (p : position) (m : move) : position :=
   let h := if negb (Bool.eqb n1 (c1 p)) then N.lxor h (castling_key K 1) else h in
   let h := if negb (Bool.eqb n2 (c2 p)) then N.lxor h (castling_key K 2) else h in
   let h := if negb (Bool.eqb n3 (c3 p)) then N.lxor h (castling_key K 3) else h in
-  mkPos b half full e h n0 n1 n2 n3 (r0 p) (r1 p) (r2 p) (r3 p) (opp_side us) (rec :: history p).
+  mkPos (make_board (brd p) us m rk rq) (make_half (halfmove p + 1) m) full (make_ep us m) h
+        n0 n1 n2 n3 (r0 p) (r1 p) (r2 p) (r3 p) (opp_side us) (rec :: history p).
+
+(* colours_[] / pieces_[] after undomove's toggles; rq = castle_rooks_from_[us*2+1] *)
+Definition undo_board (b : board) (us : side) (m : move) (rq : N) : board :=
+  let them := opp_side us in
+  let piece := m_piece m in let captured := m_cap m in let promo := m_promo m in
+  let to := m_to m in let from := m_from m in
+  let b := xor_pcs (xor_colour b us (bit to)) piece (bit to) in
+  let b := xor_pcs (xor_colour b us (bit from)) piece (bit from) in
+  match m_type m with
+  | Normal => b
+  | Double => b
+  | Capture => xor_pcs (xor_colour b them (bit to)) captured (bit to)
+  | Enpassant =>
+    match us with
+    | White => xor_colour (xor_pcs b Pawn (bit (sq_south to))) Black (bit (sq_south to))
+    | Black => xor_colour (xor_pcs b Pawn (bit (sq_north to))) White (bit (sq_north to))
+    end
+  | Ksc =>
+    let kto := castle_king_to (side_to_N us * 2) in
+    let b := xor_pcs (xor_colour b us (bit to)) piece (bit to) in
+    let b := xor_pcs (xor_colour b us (bit kto)) piece (bit kto) in
+    let b := xor_pcs (xor_colour b us (bit to)) Rook (bit to) in
+    xor_pcs (xor_colour b us (bit (ksc_rook_to us))) Rook (bit (ksc_rook_to us))
+  | Qsc =>
+    let kto := castle_king_to (side_to_N us * 2 + 1) in
+    let b := xor_pcs (xor_colour b us (bit to)) piece (bit to) in
+    let b := xor_pcs (xor_colour b us (bit kto)) piece (bit kto) in
+    let b := xor_pcs (xor_colour b us (bit rq)) Rook (bit rq) in
+    xor_pcs (xor_colour b us (bit (qsc_rook_to us))) Rook (bit (qsc_rook_to us))
+  | Promo => xor_pcs (xor_pcs b Pawn (bit to)) promo (bit to)
+  | PromoCapture =>
+    let b := xor_pcs (xor_pcs b Pawn (bit to)) promo (bit to) in
+    xor_colour (xor_pcs b captured (bit to)) them (bit to)
+  end.
 
 (* undomove; on an empty history the C++ is UB (history_.back()); the model returns p *)
 Definition undomove (p : position) : position :=
@@ -114,42 +152,9 @@ Definition undomove (p : position) : position :=
   | rec :: rest =>
     let m := h_move rec in
     let us := opp_side (to_move p) in
-    let them := opp_side us in
-    let piece := m_piece m in let captured := m_cap m in let promo := m_promo m in
-    let to := m_to m in let from := m_from m in
     let full := fullmove p - b2n (side_eqb us Black) in
-    let b := brd p in
-    let b := xor_pcs (xor_colour b us (bit to)) piece (bit to) in
-    let b := xor_pcs (xor_colour b us (bit from)) piece (bit from) in
-    let b :=
-      match m_type m with
-      | Normal => b
-      | Double => b
-      | Capture => xor_pcs (xor_colour b them (bit to)) captured (bit to)
-      | Enpassant =>
-        match us with
-        | White => xor_colour (xor_pcs b Pawn (bit (sq_south to))) Black (bit (sq_south to))
-        | Black => xor_colour (xor_pcs b Pawn (bit (sq_north to))) White (bit (sq_north to))
-        end
-      | Ksc =>
-        let kto := castle_king_to (side_to_N us * 2) in
-        let b := xor_pcs (xor_colour b us (bit to)) piece (bit to) in
-        let b := xor_pcs (xor_colour b us (bit kto)) piece (bit kto) in
-        let b := xor_pcs (xor_colour b us (bit to)) Rook (bit to) in
-        xor_pcs (xor_colour b us (bit (ksc_rook_to us))) Rook (bit (ksc_rook_to us))
-      | Qsc =>
-        let kto := castle_king_to (side_to_N us * 2 + 1) in
-        let rf := rook_from_get p (side_to_N us * 2 + 1) in
-        let b := xor_pcs (xor_colour b us (bit to)) piece (bit to) in
-        let b := xor_pcs (xor_colour b us (bit kto)) piece (bit kto) in
-        let b := xor_pcs (xor_colour b us (bit rf)) Rook (bit rf) in
-        xor_pcs (xor_colour b us (bit (qsc_rook_to us))) Rook (bit (qsc_rook_to us))
-      | Promo => xor_pcs (xor_pcs b Pawn (bit to)) promo (bit to)
-      | PromoCapture =>
-        let b := xor_pcs (xor_pcs b Pawn (bit to)) promo (bit to) in
-        xor_colour (xor_pcs b captured (bit to)) them (bit to)
-      end in
-    mkPos b (h_half rec) full (h_ep rec) (h_hash rec) (h_c0 rec) (h_c1 rec) (h_c2 rec) (h_c3 rec)
+    mkPos (undo_board (brd p) us m (rook_from_get p (side_to_N us * 2 + 1)))
+          (h_half rec) full (h_ep rec) (h_hash rec) (h_c0 rec) (h_c1 rec) (h_c2 rec) (h_c3 rec)
           (r0 p) (r1 p) (r2 p) (r3 p) us rest
   end.
 
